@@ -556,14 +556,37 @@ func init() {
 					}
 				}
 			}
+			// "after several kills, yank inserts the most recent one": two kills, then yank
+			two := func(mode, c1, c2 string, n int) {
+				j := mkJob(".ZZ_C16_TwoKills", shellSetup, "mode", mode, "cmd", c1, "cmd2", c2, "n", itoa(n))
+				j.Stubs = paintStubs
+				jobs = append(jobs, j)
+			}
+			pairE := []string{"kill-line", "backward-kill-word", "kill-word", "kill-region", "unix-line-discard"}
+			pairV := []string{"vi-delete", "vi-rubout", "vi-kill-eol"}
+			tn := 3
+			if tier == "thorough" {
+				pairE, pairV, tn = killEmacs, killVi, 4
+			}
+			for _, c1 := range pairE {
+				for _, c2 := range pairE {
+					two("emacs", c1, c2, tn)
+				}
+			}
+			for _, c1 := range pairV {
+				for _, c2 := range pairV {
+					two("vi-command", c1, c2, tn)
+				}
+			}
 			return jobs
 		},
 		Assumptions: append([]string{
+			"ZZ_C16_TwoKills: two kill commands, the cursor (and the mark for kill-region) set to an arbitrary position before each, then yank / vi-put-before: the ring top after the second kill is what it removed and the yank inserts exactly that at the cursor; paths where either kill removes nothing are not asserted",
 			"pre-state: buffer of n symbolic runes (ASCII incl. controls, blanks, quotes, newline; or Latin-1 + caseless runes of any UTF-8 length), cursor (and mark for kill-region) anywhere; the kill command and then yank / vi-put-before are typed through their key bindings in a real Readline call",
 			"when a kill command removes nothing the statement says nothing and nothing is asserted",
 		}, stepAssumptions[1:]...),
 		Stubs:  []string{"tty ioctls", "stdin = zzverif.Script", "stdout discarded"},
-		Bounds: map[string]string{"quick": "n <= 3 (ASCII), n <= 2 (multi-byte alphabet), numeric argument in {none, 2}", "thorough": "n <= 4, argument also '-'"},
+		Bounds: map[string]string{"quick": "n <= 3 (ASCII), n <= 2 (multi-byte alphabet), numeric argument in {none, 2}; two kills then yank: 5x5 emacs and 3x3 vi command pairs on n = 3", "thorough": "n <= 4, argument also '-'; two kills: all 11x11 emacs and 6x6 vi pairs on n = 4"},
 		Rule:   "one state per completed symbolic path",
 		IgnoreKinds: []string{"panic", "hang", "deadlock", "spin"},
 	}
